@@ -50,39 +50,60 @@ Definition m_lit (lit : list Z) (l : list Z) : nat := if starts_with lit l then 
 
 Definition m_ws (l : list Z) : nat := span_len is_ws l.
 
-(* MULTILINE_COMMENT: slash-star (MULTILINE_COMMENT | .)*? star-slash, nested. [fuel] bounds the scan. *)
-Fixpoint m_comment_nested (fuel : nat) (l : list Z) (depth : nat) (consumed : nat) : nat :=
-  match fuel with
-  | O => O
-  | S fuel' =>
-    match l with
-    | 47 :: 42 :: l' => m_comment_nested fuel' l' (S depth) (consumed + 2)          (* opening *)
-    | 42 :: 47 :: l' =>                                                              (* closing *)
-        match depth with
-        | S O => consumed + 2
-        | S d => m_comment_nested fuel' l' d (consumed + 2)
-        | O => O
-        end
-    | _ :: l' => m_comment_nested fuel' l' depth (consumed + 1)
-    | [] => O
-    end
+(* MULTILINE_COMMENT: slash-star (MULTILINE_COMMENT | .)*? star-slash, nested.
+   The non-greedy loop is decided the way ANTLR's lexer simulator does: an ordered set of
+   configurations (nesting depth, position inside the loop body), highest priority first - leaving
+   the loop before a nested comment before any character. A configuration that completes the
+   token records a match and discards every configuration of lower priority; the last match
+   recorded wins. On well-nested comments this is the properly nested match; when a nested opener
+   is never closed, the comment extends to the LAST star-slash that some reading can pair with
+   the outermost opener. *)
+Inductive cmode := CLoop | CMidExit | CMidOpen.
+
+Definition conf_eqb (a b : nat * cmode) : bool :=
+  Nat.eqb (fst a) (fst b) &&
+  match snd a, snd b with CLoop, CLoop | CMidExit, CMidExit | CMidOpen, CMidOpen => true | _, _ => false end.
+
+Definition add_conf (c : nat * cmode) (l : list (nat * cmode)) : list (nat * cmode) :=
+  if existsb (conf_eqb c) l then l else l ++ [c].
+
+(* one character: the configurations reached, in priority order, and whether the token was completed *)
+Fixpoint cstep (ch : Z) (l : list (nat * cmode)) (acc : list (nat * cmode)) : list (nat * cmode) * bool :=
+  match l with
+  | [] => (acc, false)
+  | (d, m) :: l' =>
+      match m with
+      | CLoop =>
+          let acc1 := if ch =? 42 then add_conf (d, CMidExit) acc else acc in       (* star: may start the closer *)
+          let acc2 := if ch =? 47 then add_conf (d, CMidOpen) acc1 else acc1 in     (* slash: may start a nested opener *)
+          cstep ch l' (add_conf (d, CLoop) acc2)                                     (* any character *)
+      | CMidExit =>
+          if ch =? 47 then
+            match d with
+            | 1%nat => (acc, true)                                                   (* token complete: the rest is discarded *)
+            | S d' => cstep ch l' (add_conf (d', CLoop) acc)
+            | O => cstep ch l' acc
+            end
+          else cstep ch l' acc
+      | CMidOpen => if ch =? 42 then cstep ch l' (add_conf (S d, CLoop) acc) else cstep ch l' acc
+      end
   end.
 
-(* without nesting: up to the first star-slash *)
-Fixpoint m_comment_flat (l : list Z) (consumed : nat) : nat :=
+Fixpoint m_comment_sim (l : list Z) (confs : list (nat * cmode)) (consumed best : nat) : nat :=
   match l with
-  | 42 :: 47 :: _ => consumed + 2
-  | _ :: l' => m_comment_flat l' (consumed + 1)
-  | [] => O
+  | [] => best
+  | ch :: l' =>
+      let '(confs', done) := cstep ch confs [] in
+      let best' := if done then S consumed else best in
+      match confs' with
+      | [] => best'
+      | _ => m_comment_sim l' confs' (S consumed) best'
+      end
   end.
 
 Definition m_block_comment (l : list Z) : nat :=
   match l with
-  | 47 :: 42 :: l' =>
-      match m_comment_nested (S (List.length l)) l O O with
-      | O => match m_comment_flat l' 2 with O => O | n => n end
-      | n => n
-      end
+  | 47 :: 42 :: l' => m_comment_sim l' [(1%nat, CLoop)] 2 O
   | _ => O
   end.
 
@@ -221,6 +242,17 @@ Fixpoint best_rule (rs : list (option tkind * (list Z -> nat))) (l : list Z) (be
       if (snd best <? n)%nat then best_rule rs' l (Some k, n) else best_rule rs' l best
   end.
 
+(* when no rule matches: how far the rules could follow the input before all of them gave up.
+   With the rules of Numscript.g4 only three can consume anything without matching: STRING (an
+   opening quote, then everything up to the end of the line: a second quote would have matched),
+   VARIABLE_NAME (the dollar sign) and ACCOUNT (the at sign). *)
+Definition viable_len (l : list Z) : nat :=
+  match l with
+  | 34 :: l' => S (span_len (fun c => negb (is_nl c)) l')
+  | 36 :: _ | 64 :: _ => 1
+  | _ => O
+  end.
+
 (* position after consuming the characters *)
 Fixpoint advance (cs : list Z) (line col : Z) : Z * Z :=
   match cs with
@@ -246,9 +278,12 @@ Fixpoint lex (fuel : nat) (l : list Z) (line col : Z) (acc : list token) (errs :
             | None => lex fuel' (skipn n l) line' col' acc errs
             end
         | (None, _) =>
-            (* token recognition error: the character is skipped *)
-            let '(line', col') := advance [c] line col in
-            lex fuel' l' line' col' acc ((line, col) :: errs)
+            (* token recognition error, reported at the start. ANTLR's simulator has consumed every
+               character some rule could still continue with - an opening quote and the rest of its
+               line, a dollar or at sign - and recovery drops one more character *)
+            let txt := firstn (S (viable_len l)) l in
+            let '(line', col') := advance txt line col in
+            lex fuel' (skipn (S (viable_len l)) l) line' col' acc ((line, col) :: errs)
         end
     end
   end.
